@@ -26,7 +26,8 @@ RULE = ("flow cases: population (1-30 taxa, 1-24 markers, ploidy 1/2/4, taxon na
         "genotype matrix for alignment (None, same, permuted, subset, with never-phenotyped taxa, only unphenotyped, phased or "
         "unphased, own group labels, taxa-grouped); every small trial, and a second trial on the same protocol object after re-assigning "
         "nenv/nrep/variances, is judged trait by trait: zero-variance strata vanish, positive-variance strata carry distinct effects.  "
-        "stat cases (12 design classes incl. zero on some traits only in var_env / var_rep / var_err and heritability exactly 1 on some traits): "
+        "stat cases (half of them ONE large trial, half 300-2500 independent trials of 1-3 environments x 1-2 replicates run on one long-lived "
+        "protocol object and pooled with the zero-mean estimator, so marginal - not within-trial - variances are judged; 12 design classes incl. zero on some traits only in var_env / var_rep / var_err and heritability exactly 1 on some traits): "
         "1000-10000 environments x 1-4 replicates x 1-12 taxa, exact "
         "chi-square tests of the error / replicate / environment strata per trait, Bonferroni family-wise alpha 1e-9 over the run, "
         "confirmation stage (independent seed, 4x environments, alpha 1e-6).  Non-trivial: >= 2 taxa and >= 2 records per taxon; "
@@ -41,7 +42,8 @@ ASSUME = ["true genotypic value = intercept + dosage.u_a (+ heterozygous.u_d); i
           "TrueBreedingValue is judged against intercept + dosage.u_a only for purely additive models; with dominance only labels and "
           "taxon-permutation equivariance are judged",
           "a variance argument left None requests zero variance (the constructor's default)",
-          "an estimate()/phenotype() call that raises is counted under 'raised' (DESIGN 2.1), not as a violation",
+          "G_E_Phenotyping.phenotype() and MeanPhenotypicBreedingValue.estimate() promise a result for every valid trial / table / cohort "
+          "(also a cohort none of whose taxa was phenotyped): raising there is a violation; other calls that raise are counted under 'raised'",
           "a variance bias smaller than the reported minimum detectable ratio is invisible to C14.variance"]
 
 NAME_POOL = ["Zed", "b7", "quark", "Aa", "mu", "C-12", "yam", "B73", "a", "Mo17", "w22", "Oh43", "teo", "Ki3", "x_9", "PHZ51", "il14h",
@@ -317,14 +319,16 @@ def gen_gtobj(g, pg, phen_labels):
     if pg.taxa is None:
         return "no genotype matrix", None
     k = ["no genotype matrix", "same matrix", "permuted", "permuted subset", "with unphenotyped taxa", "with unphenotyped taxa",
-         "only unphenotyped taxa"][int(g.integers(7))]
+         "only unphenotyped taxa", "only unphenotyped taxa", "single candidate"][int(g.integers(9))]
     if k == "no genotype matrix":
         return k, None
     if k == "same matrix":
         return k, pg
     own = [key_of(t) for t in pg.taxa]
     isint = isinstance(own[0], int)
-    if k == "permuted":
+    if k == "single candidate":       # one taxon: a phenotyped one or a new one
+        lab = [own[int(g.integers(len(own)))]] if g.random() < 0.5 else ([1000 + int(g.integers(50))] if isint else ["new%02d" % int(g.integers(50))])
+    elif k == "permuted":
         lab = [own[i] for i in g.permutation(len(own))]
     elif k == "permuted subset":
         lab = [own[i] for i in g.permutation(len(own))[: int(g.integers(1, len(own) + 1))]]
@@ -573,10 +577,15 @@ def case_flow(ctx, c):
     var_err = as_vec(pt.var_err if session else verr, nt)
     zero = (var_env == 0) & (var_rep == 0) & (var_err == 0)
     # ---- the trial
+    icls = "taxa unnamed" if pg.taxa is None else ("ungrouped population" if pg.taxa_grp is None else "named grouped taxa")
     try:
         df = pt.phenotype(pg)
     except Exception as e:
-        ctx.raised("G_E_Phenotyping.phenotype", e); return
+        ctx.ok("C14.records")
+        ctx.violation("C14.records", "G_E_Phenotyping.phenotype", "returns a table for a valid trial (raised %s)" % type(e).__name__, icls,
+                      what="phenotype() raised %s: %s" % (type(e).__name__, str(e)[:160]),
+                      witness={"nenv": nenv, "nrep": nrep, "var_env": var_env, "var_rep": var_rep, "var_err": var_err, "taxa": pg.taxa}, coords=coords)
+        return
     ctx.hook("G_E_Phenotyping.phenotype calls")
     if c % 53 == 0:
         ctx.sample({"population": P, "ntaxa": n, "markers": p, "model": mcls, "nenv": nenv, "nrep": nrep, "var_env": var_env, "var_rep": var_rep,
@@ -661,10 +670,20 @@ def case_flow(ctx, c):
     ctx.sumnote("estimate cases with %s" % ecls)
     ctx.sumnote("estimate cases aligned to an unphased matrix", int(gname.endswith("/unphased")))
     bvp = MeanPhenotypicBreedingValue(tc, gc, tr if (len(tr) > 1 or g.random() < 0.5) else tr[0])
+    if gt is None:
+        cohort = "no genotype matrix"
+    else:
+        nph = sum(1 for t in gt.taxa if key_of(t) in means)
+        cohort = "cohort %s phenotyped" % ("not at all" if nph == 0 else ("fully" if nph == gt.ntaxa else "partly"))
+    ctx.sumnote("estimate cases with %s" % cohort)
+    ctx.sumnote("estimate cases with a single candidate", int(gt is not None and gt.ntaxa == 1))
     try:
         bv = bvp.estimate(fr, gt)
     except Exception as e:
-        ctx.raised("MeanPhenotypicBreedingValue.estimate (%s)" % ecls, e); return
+        ctx.ok("C14.alignment")
+        ctx.violation("C14.alignment", "MeanPhenotypicBreedingValue.estimate", "returns a matrix aligned to the genotype matrix (raised %s)" % type(e).__name__,
+                      cohort, what="estimate() raised %s: %s (%s, %s)" % (type(e).__name__, str(e)[:160], cohort, ecls), witness=wit, coords=coords)
+        return
     ctx.hook("MeanPhenotypicBreedingValue.estimate calls")
     kcls = ecls if "all missing" in ecls else "group labels present or group column not named"
     judge_estimate(ctx, bv, gt, means, fgroups, tr, colscale, kcls, gcls, coords, wit)
@@ -704,6 +723,17 @@ def gen_design(g, tier, c):
         r = int(g.integers(1, 5)); nrep = numpy.full(nenv, r, dtype="int64"); scalar = True
     else:
         nrep = g.integers(1, 5, nenv).astype("int64"); scalar = False
+    small = (c // 12) % 2 == 1      # many independent trials of 1-3 environments x 1-2 replicates on ONE long-lived protocol, pooled
+    if small:
+        k = int(g.integers(1, 4))
+        T = int(g.integers(300, 801)) if tier == "quick" else int(g.integers(800, 2501))
+        nenv = T * k
+        if g.random() < 0.5:
+            nrep = numpy.full(nenv, int(g.integers(1, 3)), dtype="int64"); scalar = True
+        else:
+            nrep = numpy.tile(g.integers(1, 3, k).astype("int64"), T); scalar = False
+    else:
+        k, T = nenv, 1
     cls = ["env only", "rep only", "err only", "env+rep", "mixed", "mixed", "via set_h2", "via set_H2",
            "err zero on some traits", "rep zero on some traits", "env zero on some traits", "heritability exactly 1 on some traits"][c % 12]     # every class in every run
     some = cls.endswith("on some traits")
@@ -753,7 +783,7 @@ def gen_design(g, tier, c):
         ve, vr, vx = [numpy.full(nt, v[0]) for v in (ve, vr, vx)]
     none_zero = bool(g.random() < 0.5)
     return dict(n=n, p=p, nt=nt, nenv=nenv, nrep=nrep, scalar=scalar, cls=cls, var_env=ve, var_rep=vr, var_err=vx, h=h, hfun=hfun,
-                scalar_var=scalar_var, none_zero=none_zero)
+                scalar_var=scalar_var, none_zero=none_zero, small=small, k=k, T=T)
 
 
 def ntests_of(D):
@@ -791,6 +821,9 @@ def run_trial(D, seed, mult, rkind):
         prng.seed(s); rng = None
     nenv = D["nenv"] * mult
     nrep = int(D["nrep"][0]) if D["scalar"] else numpy.tile(D["nrep"], mult)
+    nenv_all, nrep_all = nenv, nrep
+    if D["small"]:                 # the protocol describes ONE small trial; it is run T x mult times
+        nenv = D["k"]; nrep = nrep if D["scalar"] else D["nrep"][: D["k"]].copy()
     def arg(v):
         if not D["scalar_var"]:
             return v.copy()
@@ -803,7 +836,17 @@ def run_trial(D, seed, mult, rkind):
         getattr(pt, D["hfun"])(D["h"], pg)
         nset = 1
         var_err = numpy.array(pt.var_err, dtype=float)      # the error variance the heritability fixed (its formula is judged by C14.h2)
-    df = pt.phenotype(pg)
+    if D["small"]:
+        import pandas
+        frames = []
+        for t in range(D["T"] * mult):
+            f = pt.phenotype(pg)
+            f["env"] = f["env"].to_numpy() + 10 * t          # environments of different trials are different environments
+            frames.append(f)
+        df = pandas.concat(frames, axis=0, ignore_index=True)
+        nenv, nrep = nenv_all, nrep_all
+    else:
+        df = pt.phenotype(pg)
     nrep_vec = numpy.full(nenv, nrep, dtype="int64") if numpy.ndim(nrep) == 0 else nrep
     return pg, mod, dict(kind="additive+dominance" if dom else "additive q=1", nt=nt, trait=trait, beta=beta, u_a=u_a, u_d=u_d), truth, df, nenv, nrep_vec, var_err, nset
 
@@ -833,16 +876,20 @@ def case_stat(ctx, c, level):
     coords = [c, "stat"]
     n, nt = D["n"], D["nt"]
     icls = "error variance fixed by a heritability" if D["h"] is not None else "explicit variances"
+    if D["small"]:
+        icls = "many trials of 1-3 environments on one protocol object, pooled / " + icls
+        ctx.sumnote("stat cases pooling many small trials")
+        ctx.sumnote("small trials run on long-lived protocols", D["T"])
     ctx.sumnote("stat cases with rng: %s" % rkind)
     ctx.sumnote("stat cases with variances passed as: %s" % ("numbers/None" if D["scalar_var"] else "per-trait arrays"))
-    ctx.case("stat:%s | %s" % (D["cls"], "scalar nrep" if D["scalar"] else "per-environment nrep"),
+    ctx.case("stat:%s | %s" % (D["cls"], "many small trials pooled" if D["small"] else "one large trial"), D["k"], D["T"],
              D["n"], D["p"], D["nenv"], D["nrep"], D["var_env"], D["var_rep"], D["var_err"], repr(D["h"]))
     site = "G_E_Phenotyping.phenotype"
     try:
         pg, mod, M, truth, df, nenv, nrep_vec, var_err, nset = run_trial(D, int(g.integers(2 ** 62)), 1, rkind)
     except Exception as e:
         ctx.raised("G_E_Phenotyping.phenotype (large trial)", e); return
-    ctx.hook("G_E_Phenotyping.phenotype calls"); ctx.hook("set_h2/set_H2 calls", nset)
+    ctx.hook("G_E_Phenotyping.phenotype calls", D["T"]); ctx.hook("set_h2/set_H2 calls", nset)
     scale = FT.value_scale(pg.mat, M["beta"], M["u_a"], M["u_d"])
     judge_frame(ctx, df, pg, M, truth, scale, nenv, [int(x) for x in nrep_vec], site, "large trial", coords, zero=None)
     tests, resid, cinv, env_of_cell, vals = strata(D, pg, M, truth, df, var_err)
